@@ -118,7 +118,17 @@ def logical_input(rng):
             dict(base, ctor='string', kw=kw, pres='string_permuted', frag_string=permute_fragments(rng, c['frag_string'])),
             dict(base, ctor='from_graph_of_string', kw=kw, pres='from_graph'),
             dict(base, ctor='from_fragment_dicts_shared', kw=kw, pres='from_fragment_dicts')]
-    return dict(kind=c['kind'], presentations=pres, features=sorted(c['features']))
+    feats = set(c['features'])
+    names = sorted(set(re.findall(r'\[#([^\];\]]+)', c['base_string'])))
+    defined = sorted(set(re.findall(r'(?:(?<=\{)|(?<=,))#([^=,{}]+)=', re.findall(r"\{[^\}]+\}", c['frag_string'])[0])))
+    pool = names if len(names) >= 2 else sorted(set(names) | set(defined))
+    if len(pool) >= 2 and names:
+        # a base graph OBJECT that the caller used before under other node names (resolved once, then renamed in place)
+        shift = {nm: pool[(pool.index(nm) + 1) % len(pool)] for nm in pool}
+        first_base = re.sub(r'\[#([^\];\]]+)', lambda m: '[#' + shift.get(m.group(1), m.group(1)), c['base_string'])
+        pres.append(dict(base, ctor='from_graph_recycled', kw=kw, pres='from_graph_recycled', first_base=first_base))
+        feats.add('base_graph_object_used_before_under_other_names')
+    return dict(kind=c['kind'], presentations=pres, features=sorted(feats))
 
 
 def cases(seed, tier, shard, nshards):
@@ -172,6 +182,16 @@ def resolve_presentation(p, shared):
         r = MoleculeResolver.from_string(p['base_string'] + '.' + p['frag_string'], **kw)
     elif p['ctor'] == 'from_graph_of_string':
         r = MoleculeResolver.from_graph(p['frag_string'], cgsmiles.read_cgsmiles(p['base_string']), **kw)
+    elif p['ctor'] == 'from_graph_recycled':
+        g = cgsmiles.read_cgsmiles(p['first_base'])
+        try:
+            MoleculeResolver.from_graph(p['frag_string'], g, **kw).resolve_all()
+        except Exception:
+            pass           # whatever the other names meant: the caller now renames the nodes and uses the graph again
+        target = cgsmiles.read_cgsmiles(p['base_string'])
+        for n in target.nodes:
+            g.nodes[n]['fragname'] = target.nodes[n]['fragname']
+        r = MoleculeResolver.from_graph(p['frag_string'], g, **kw)
     else:
         lib = shared.get(p['frag_string'])
         before = [{name: contracts.snap_graph(g) for name, g in d.items()} for d in lib]
@@ -190,7 +210,7 @@ def resolve_presentation(p, shared):
 
 def solo_job(p):
     """the same presentation for the reference runner (constructors without sharing)"""
-    ctor = {'string': 'string', 'from_graph_of_string': 'string', 'from_fragment_dicts_shared': 'from_fragment_dicts'}[p['ctor']]
+    ctor = {'string': 'string', 'from_graph_of_string': 'string', 'from_graph_recycled': 'string', 'from_fragment_dicts_shared': 'from_fragment_dicts'}[p['ctor']]
     return dict(kind='resolve', case=dict(base_string=p['base_string'], frag_string=p['frag_string'], ctor=ctor), kw=p.get('kw', {}))
 
 
